@@ -240,9 +240,43 @@ def small_cex(part, name_fragment):
     return None
 
 
+def run_merge(rep, tier):
+    """compile-time merging of view[I][J] into view[K] (PYSYM)"""
+    import shutil
+    import concurrent.futures as cf
+    from ..pysym import runner
+    from ..pysym.runner import Cond
+    H = '/verif/vf/pysym/h_c16_merge.py'
+    d = snapshot.scratch_dir('c16m')
+    shutil.copy(H, os.path.join(d, 'h_c16_merge.py'))
+    files = []
+    for nf in range(3):
+        for f0 in range(7):
+            nm = 'merge_n%d_f%d' % (nf + 1, f0)
+            M = ['import h_c16_merge as B', '', 'def %s(f1: int, f2: int, ns: int, s0: int, s1: int) -> bool:' % nm, '    """',
+                 '    pre: 0 <= f1 < %d and 0 <= f2 < %d and 0 <= ns < 3 and 0 <= s0 < 6 and 0 <= s1 < 6' % (7 if nf >= 1 else 1, 7 if nf >= 2 else 1),
+                 '    post: _ == True', '    """', '    return B.check(%d, %d, f1, f2, ns, s0, s1)' % (nf, f0), '']
+            if not files:
+                M += ['def twin(f0: int) -> bool:', '    """', '    pre: 0 <= f0 < 7', '    post: _ == True', '    """', '    return B.twin(f0)', '']
+            f = os.path.join(d, 'g_%s.py' % nm)
+            open(f, 'w').write('\n'.join(M))
+            files.append((f, nm))
+    rep.functions += ['Cython/Compiler/ExprNodes.py: MemoryViewSliceNode.merged_indices']
+    rep.bounds += ['view[I][J] on a 3-dimensional view (shape 3 x 4 x 5): I of 1..3 entries out of {int index, :, ::2, 1:, :2, ::-1, object index}, J of 0..2 entries out of '
+                   '{0, 2, 3, :, 1:, ::2}; selectors symbolic; whenever a merged index list is returned it must select the same elements with the same shape, or raise IndexError exactly '
+                   'when the two-step form does (oracle: NumPy basic indexing)']
+    runner.run_twin(rep, files[0][0], 'twin', 120, extra_path=[d])
+    with cf.ThreadPoolExecutor(max_workers=16) as ex:
+        list(ex.map(lambda fn: runner.run_conditions(rep, fn[0], [Cond(fn[1], 1200)], jobs=1, extra_path=[d]), files))
+
+
 def run(rep, tier, only=None):
     global _B
     snapshot.activate()
+    if not only or 'merge' in only:
+        run_merge(rep, tier)
+        if only and 'merge' in only:
+            return
     if tier == 'thorough':
         os.environ.setdefault('VF_QTIMEOUT', '600')
     _B = harness.build_template('c16t', TEMPLATE)
